@@ -864,7 +864,7 @@ class Agl(Unit):
 # ---------------------------------------------------------------- Type 1 font program writer / reader
 class Type1Charstrings(Unit):
     name = "type1-charstrings"
-    rule = ("Type 1 charstring encryption as the font writer and reader use it: the repository's Type 1 test font with /lenIV in {absent,0,1,2,3,4} (placed before /Subrs), its Subrs replaced by "
+    rule = ("Type 1 charstring encryption as the font writer and reader use it: the repository's Type 1 test font with /lenIV in {absent,0,1,2,3,4,5,8} (placed before /Subrs), its Subrs replaced by "
             "every one-byte program, every three-byte program (v, 255-v, v) and the empty one (16 blocks of 16 byte values), its CharStrings by byte ramps of length 0..6; "
             "T1Font.createData -> parse, and saveAs in each of PFA (hex), PFB (segments) and raw binary -> T1Font(path).parse: every subroutine and charstring reads back byte-identical and "
             "lenIV is preserved; distinct = each (lenIV, block, container)")
@@ -872,7 +872,7 @@ class Type1Charstrings(Unit):
     required_witnesses = ("lenIV absent", "lenIV 0", "lenIV 3", "container PFA", "container PFB", "container OTHER", "subroutines compared")
 
     def cases(self, tier, seed):
-        for lenIV in (None, 0, 1, 2, 3, 4):
+        for lenIV in (None, 0, 1, 2, 3, 4, 5, 8):
             for blk in range(16):
                 yield [lenIV, blk]
 
